@@ -151,6 +151,15 @@ def run(ctx, case):
                 _rw._sibling(a, spec, case["vseed"], reorder=True)
             ctx.count("built", "component objects shared with a sibling system")
     with H.tmpdir() as d:
+        if spec.get("phases") and rng.random() < 0.35:
+            # the same System was saved BEFORE, when its phases still had other durations (a new dict is handed to
+            # set_sys_phases for the final ones): every save writes the system as it is then
+            alt = {p_: G.sig(float(v_) * 3.0 + 2.0) for p_, v_ in spec["phases"].items()}
+            with H.quiet():
+                H.call(a.set_sys_phases, alt)
+                H.call(a.save, os.path.join(d, "earlier.json"))
+                H.call(a.set_sys_phases, copy.deepcopy(spec["phases"]))
+            ctx.count("built", "saved earlier with other phase durations")
         f1 = os.path.join(d, "a.json")
         st, r = H.call(a.save, f1)
         if st != "ok":
